@@ -272,24 +272,166 @@ func tailLossCase(c *kit.Case) {
 	w.Shutdown()
 }
 
+// resubCase (real time, no bubble): the last subscriber of a channel with a queueing medium leaves, a
+// new subscriber joins inside the 1 s window before the deferred broker-unsubscribe job runs, and
+// publications keep flowing across the instant that job fires. The job belongs to a channel that has
+// subscribers again: it must leave the live medium and what is queued in it alone. The new subscriber
+// (not positioned: nothing would tell it about a loss) must receive every publication published after
+// its subscribe reply, in order, once. Runs in real time because the medium that the resubscribe
+// replaces keeps its goroutine (side finding in DESIGN.md), which a virtual-time bubble cannot outlive.
+func resubCase(c *kit.Case) {
+	r := c.R
+	w := kit.NewWorld(c)
+	const ch = "c38:resub"
+	var mo centrifuge.ChannelMediumOptions
+	mo.KeepLatestPublication = r.Bool()
+	delay := time.Duration(kit.Pick(r, []int{0, 5, 10, 20})) * time.Millisecond
+	centrifuge.VerifSetMediumInternals(&mo, true, 0, int64(delay))
+	node, _ := w.NewNode(centrifuge.Config{
+		ClientStaleCloseDelay:   time.Hour,
+		GetChannelMediumOptions: func(string) centrifuge.ChannelMediumOptions { return mo },
+	}, func(n *centrifuge.Node) {
+		n.OnConnecting(func(context.Context, centrifuge.ConnectEvent) (centrifuge.ConnectReply, error) {
+			return kit.Creds("u"), nil
+		})
+		n.OnConnect(func(cl *centrifuge.Client) {
+			cl.OnSubscribe(func(e centrifuge.SubscribeEvent, cb centrifuge.SubscribeCallback) {
+				cb(centrifuge.SubscribeReply{}, nil)
+			})
+		})
+	})
+	noPing := centrifuge.PingPongConfig{PingInterval: -1, PongTimeout: -1}
+	waitReply := func(conn *kit.Conn, id uint32) bool {
+		for i := 0; i < 3000; i++ {
+			if f, ok := conn.ReplyFor(id); ok {
+				return f.Reply.Error == nil
+			}
+			time.Sleep(time.Millisecond)
+		}
+		return false
+	}
+	a := w.NewConn(node, kit.TransportOpts{PingPong: noPing})
+	a.Connect(nil)
+	if !waitReply(a, a.Subscribe(&protocol.SubscribeRequest{Channel: ch})) {
+		c.Inconclusive("resub case: first subscribe not acknowledged")
+		w.Shutdown()
+		return
+	}
+	var seq atomic.Int64
+	pub := func() int {
+		n := int(seq.Add(1))
+		data, _ := json.Marshal(map[string]int{"n": n})
+		_, _ = node.Publish(ch, data)
+		return n
+	}
+	pub()
+	if !waitReply(a, a.Unsubscribe(ch)) {
+		c.Inconclusive("resub case: unsubscribe not acknowledged")
+		w.Shutdown()
+		return
+	}
+	left := time.Now() // the deferred job fires about 1 s from here
+	time.Sleep(time.Duration(r.Range(100, 800)) * time.Millisecond)
+	b := w.NewConn(node, kit.TransportOpts{PingPong: noPing, Protocol: kit.Pick(r, []centrifuge.ProtocolType{centrifuge.ProtocolTypeJSON, centrifuge.ProtocolTypeProtobuf})})
+	b.Connect(nil)
+	if !waitReply(b, b.Subscribe(&protocol.SubscribeRequest{Channel: ch})) {
+		c.Inconclusive("resub case: second subscribe not acknowledged")
+		w.Shutdown()
+		return
+	}
+	first := int(seq.Load()) + 1
+	gap := time.Duration(r.Range(2, 15)) * time.Millisecond
+	for time.Since(left) < 1600*time.Millisecond {
+		pub()
+		time.Sleep(gap)
+	}
+	last := int(seq.Load())
+	time.Sleep(400*time.Millisecond + 4*delay)
+	// structural invariant, independent of timing: the channel has a subscriber and its options ask
+	// for a medium, so the node must hold one (a stale job that tore it down would leave none until
+	// the channel empties and fills again)
+	if node.Hub().NumSubscribers(ch) > 0 && !centrifuge.VerifHasMedium(node, ch) {
+		c.Violation("c38-live-channel-lost-its-medium", fmt.Sprintf("channel with a subscriber that joined inside the 1 s window after the last subscriber had left: %s after the leave the node holds no channel medium for it although its options are %+v", time.Since(left).Round(10*time.Millisecond), mo), map[string]any{"medium": fmt.Sprintf("%+v", mo)})
+	}
+	if delay > 0 {
+		// with a broadcast delay the medium conflates (only the latest publication at each tick), and
+		// what counts as one tick depends on real-time scheduling: delivery is not judged here
+		c.Eval(1)
+		c.Count("resubscribe_inside_dissolve_window_cases", 1)
+		c.Count("publications_across_the_stale_dissolve_job", last-first+1)
+		c.Nontrivial(fmt.Sprintf("resub %+v", mo))
+		_ = a.CloseFn()
+		_ = b.CloseFn()
+		w.Shutdown()
+		return
+	}
+	var got []int
+	for _, f := range b.T.Frames() {
+		if f.Push != nil && f.Push.Pub != nil && f.Push.Channel == ch {
+			var m map[string]int
+			_ = json.Unmarshal(f.Push.Pub.Data, &m)
+			got = append(got, m["n"])
+		}
+	}
+	c.Eval(last - first + 1)
+	c.Count("resubscribe_inside_dissolve_window_cases", 1)
+	c.Count("publications_across_the_stale_dissolve_job", last-first+1)
+	want := first
+	for _, n := range got {
+		if n < first {
+			continue // published before the subscribe reply: may or may not arrive
+		}
+		if n != want {
+			c.Violation("c38-publication-lost-behind-live-medium", fmt.Sprintf("a subscriber that joined %s after the channel's last subscriber had left (medium %+v) received publication %d right after %d: %d publication(s) published while it was subscribed never arrived (published %d..%d, job due ~1 s after the leave)", time.Duration(0), mo, n, want-1, n-want, first, last),
+				map[string]any{"medium": fmt.Sprintf("%+v", mo), "received": got, "first_after_subscribe": first, "last": last})
+			want = -1
+			break
+		}
+		want++
+	}
+	if want != -1 && want != last+1 {
+		c.Violation("c38-publication-lost-behind-live-medium", fmt.Sprintf("a subscriber that joined after the channel's last subscriber had left (medium %+v) received publications up to %d of %d..%d published while it was subscribed", mo, want-1, first, last),
+			map[string]any{"medium": fmt.Sprintf("%+v", mo), "received": got, "first_after_subscribe": first, "last": last})
+	}
+	c.Nontrivial(fmt.Sprintf("resub %+v n%d", mo, bucket38(last-first+1)))
+	_ = a.CloseFn()
+	_ = b.CloseFn()
+	w.Shutdown()
+}
+
+func bucket38(n int) int {
+	switch {
+	case n < 100:
+		return 0
+	case n < 200:
+		return 1
+	}
+	return 2
+}
+
 func runCase(c *kit.Case) {
+	if c.Index%100 == 7 {
+		resubCase(c)
+		return
+	}
 	if c.Index%5 == 4 {
-		orderCase(c)
+		kit.RunBubble(c, func() { orderCase(c) })
 		return
 	}
 	if c.Index%5 == 2 {
-		tailLossCase(c)
+		kit.RunBubble(c, func() { tailLossCase(c) })
 		return
 	}
-	posdeliv.RunCase(c, posdeliv.Options{Prefix: "c38", Anchor: true, Medium: func(r *kit.Rand) centrifuge.ChannelMediumOptions { return mediumFor(r, false) }})
+	kit.RunBubble(c, func() {
+		posdeliv.RunCase(c, posdeliv.Options{Prefix: "c38", Anchor: true, Medium: func(r *kit.Rand) centrifuge.ChannelMediumOptions { return mediumFor(r, false) }})
+	})
 }
 
 func TestC38(t *testing.T) {
 	kit.Main(t, kit.Spec{
 		ID:     "C38",
 		Level:  "fault_enumeration",
-		Bubble: true,
-		Rule: "1 of 5 cases: tail loss under SharedPositionSync: one positioned subscriber, a few delivered publications, then 0-3 more positioned subscribers joining 1.1-2.6 s apart (so that their periodic checks fall into different seconds; periodic tick 1 s, position check delay 2-5 s), a quiet period of two check rounds (2 x (delay + 1 s) + 0.5-3.5 s) so that the periodic checks are in their steady rhythm, then the last publication is lost in PUB/SUB and nothing follows; every subscription must be told (unsubscribe 2500 / disconnect 3010) within 3 x (delay + 1 s) + 3 s. 3 of 5 cases: the C01 scenario and oracle (positioned subscribers, racing publishes inside the subscribe windows, PUB/SUB faults, recovery, bounded progress after faults stop) with the channel medium enabled in a seeded combination of KeepLatestPublication / SharedPositionSync / queue / queue size; 1 of 5 cases: non-positioned subscribers behind a medium with queue and broadcast delay must receive publications in production order, each at most once. " +
+		Rule: "1 of 100 cases (real time): the last subscriber of a channel with a queueing medium (broadcast delay 0-20 ms) leaves, another joins 100-800 ms later, publications every 2-15 ms until 1.6 s after the leave (across the deferred job at ~1 s): afterwards the node must still hold a medium for the channel (structural, timing-free), and without a broadcast delay the new, non-positioned subscriber must have received every publication published after its subscribe reply, in order, once (with a delay the medium conflates by design and delivery is not judged). 1 of 5 cases: tail loss under SharedPositionSync: one positioned subscriber, a few delivered publications, then 0-3 more positioned subscribers joining 1.1-2.6 s apart (so that their periodic checks fall into different seconds; periodic tick 1 s, position check delay 2-5 s), a quiet period of two check rounds (2 x (delay + 1 s) + 0.5-3.5 s) so that the periodic checks are in their steady rhythm, then the last publication is lost in PUB/SUB and nothing follows; every subscription must be told (unsubscribe 2500 / disconnect 3010) within 3 x (delay + 1 s) + 3 s. 3 of 5 cases: the C01 scenario and oracle (positioned subscribers, racing publishes inside the subscribe windows, PUB/SUB faults, recovery, bounded progress after faults stop) with the channel medium enabled in a seeded combination of KeepLatestPublication / SharedPositionSync / queue / queue size; 1 of 5 cases: non-positioned subscribers behind a medium with queue and broadcast delay must receive publications in production order, each at most once. " +
 			"Non-trivial = at least one subscription incarnation observed; signature = fault mode x medium options x per-incarnation outcome.",
 		Assumptions: []string{
 			"broadcast delay is only combined with non-positioned subscribers, as documented",
@@ -297,7 +439,7 @@ func TestC38(t *testing.T) {
 			"unexported medium options (queue, queue size, broadcast delay) are set through the tag-guarded accessor VerifSetMediumInternals",
 		},
 		Cases:           map[string]int{"quick": 1500, "thorough": 30000},
-		RequireCounters: []string{"loss_bursts_after_history_read", "publish_spanning_subscription_start", "recovered_incarnations", "insufficient_state_endings", "racer_publishes", "faults_injected", "alive_at_top", "nonpositioned_publications_delivered", "tail_loss_cases_with_staggered_subscribers", "tail_loss_subscriptions_ended"},
+		RequireCounters: []string{"loss_bursts_after_history_read", "publish_spanning_subscription_start", "recovered_incarnations", "insufficient_state_endings", "racer_publishes", "faults_injected", "alive_at_top", "nonpositioned_publications_delivered", "tail_loss_cases_with_staggered_subscribers", "tail_loss_subscriptions_ended", "resubscribe_inside_dissolve_window_cases", "publications_across_the_stale_dissolve_job"},
 		Run:             runCase,
 	})
 }
